@@ -194,6 +194,20 @@ func runSeq(c Case, mode string) ([]obs, []string, string) {
 		default:
 			resp, err = env.Plain(req)
 		}
+		if rq.Odd && (err != nil || resp.ReadErr != nil) {
+			// whatever the proxy makes of such an origin answer, what it sends is a response: complete, framed by its own length
+			out = append(out, obs{err: fmt.Sprintf("odd-status exchange failed: %v %v", err, func() error {
+				if resp != nil {
+					return resp.ReadErr
+				}
+				return nil
+			}())})
+			if tun != nil {
+				tun.Close()
+				tun = nil
+			}
+			continue
+		}
 		if rq.BadHost != "" || rq.Odd {
 			// not compared; a proxy may also close the tunnel after refusing the request
 			out = append(out, obs{err: "bad-host exchange"})
@@ -285,6 +299,9 @@ var sub = ev.Register("tunnel-differential",
 			}
 			if rq.Odd {
 				o.Class("odd-status-exchange-on-tunnel")
+				if strings.HasPrefix(x.err, "odd-status exchange failed") {
+					return ev.Failf("tunnel.exchange-failed:odd-status", "one-tunnel: request %d (origin answers with the status line 000 and a 300-byte body): the proxy's answer is not a complete response: %s", i, x.err)
+				}
 				continue
 			}
 			if rq.GetBody && rq.Method == "GET" && rq.Range == "" {
